@@ -99,3 +99,59 @@ Section LruFacts.
   Theorem lru_get_moves_to_end k (l : lru) v : fst (lru_get k l) = Some v -> snd (lru_get k l) = lru_remove k l ++ [(k, v)].
   Proof. unfold lru_get. destruct (find (key_is k) l) as [e|]; cbn [fst snd]; [intros E; now injection E as <- | discriminate]. Qed.
 End LruFacts.
+
+(* ------------------------------------------------------------------ one get_data call *)
+Section StepFacts.
+  Variable V : variants.
+  Variable C : config.
+  Variable H : str -> str.
+  Variable yload : str -> res val.
+  Hypothesis V_norerender : rerender V = false.
+  Hypothesis yload_wf : forall text v, yload text = Ok v -> wf v = true.
+
+  Definition usable (k : call) (it : item) : Prop := item_ok V C H yload (k_match k) (k_pv k) it.
+  Definition spec_of_call (k : call) : res dict := spec_result V C (k_render k) yload (k_match k) (k_tree k).
+
+  Definition step_data (r : res (dict * str)) : res dict := match r with Ok (d, _) => Ok d | Err e => Err e end.
+
+  (* whatever the cache holds for this system: if it is usable for this call, the call returns the
+     specification's data for the snapshot of this moment *)
+  Lemma step_transparent cap (st : lru item) (k : call) :
+    (forall it, In (k_sys k, it) st -> usable k it) ->
+    step_data (snd (get_data_step V C H yload cap st k)) = spec_of_call k.
+  Proof.
+    intros Hus. unfold get_data_step.
+    destruct (cache_get cap (k_sys k) st) as [old st1] eqn:Eg.
+    assert (Ho : usable k (match old with Some it => it | None => empty_item end)).
+    { destruct old as [it|]; [|apply item_ok_empty]. apply Hus.
+      destruct cap; cbn [cache_get] in Eg; [discriminate|].
+      apply (lru_get_sound item). now rewrite Eg. }
+    pose proof (compile_spec V C H (k_render k) yload (k_match k) (k_tree k) (k_pv k) V_norerender yload_wf _ Ho) as S.
+    unfold compile_call. unfold spec_of_call. rewrite <- S.
+    destruct (compile V C H (k_render k) yload (k_match k) (k_tree k) (k_pv k)
+                (match old with Some it => it | None => empty_item end)) as [[[d v] [new|]]|e]; reflexivity.
+  Qed.
+
+  (* with cache_size 0 (NullCache) every call is the call of a new source *)
+  Lemma null_cache_fresh (st : lru item) (k : call) :
+    get_data_step V C H yload 0 st k = (st, fresh_result V C H yload k).
+  Proof.
+    unfold get_data_step, fresh_result. cbn [cache_get lru_set].
+    destruct (compile_call V C H yload k empty_item) as [[[d v] [new|]]|e]; reflexivity.
+  Qed.
+
+  Lemma null_history (ks : list call) : forall st,
+    run_history V C H yload 0 st ks = map (fresh_result V C H yload) ks.
+  Proof.
+    induction ks as [|k r IH]; intros st; cbn [run_history map]; [reflexivity|].
+    rewrite null_cache_fresh. now rewrite IH.
+  Qed.
+
+  Lemma fresh_data (k : call) : step_data (fresh_result V C H yload k) = spec_of_call k.
+  Proof.
+    unfold fresh_result, compile_call, spec_of_call.
+    rewrite <- (compile_spec V C H (k_render k) yload (k_match k) (k_tree k) (k_pv k) V_norerender yload_wf empty_item
+                  (item_ok_empty _ _ _ _ _ _)).
+    destruct (compile V C H (k_render k) yload (k_match k) (k_tree k) (k_pv k) empty_item) as [[[d v] o]|e]; reflexivity.
+  Qed.
+End StepFacts.
